@@ -29,21 +29,13 @@ namespace gs
         gstuff_autorecv_v1 r;
         uint8_t *buf_;
         int cap_;
-        void reinit(int) override
-        {
-            // The legacy set-up procedure is "zeroed object, then setbuf" (see the constructor): setbuf alone resets line
-            // and crc but leaves `state` as it is, so it is not a re-initialisation by itself.
-            // (-DGS_LEGACY_REINIT_SETBUF_ONLY demands that of setbuf alone; not the default, see config assumptions.)
-#ifndef GS_LEGACY_REINIT_SETBUF_ONLY
-            memset(&r, 0, sizeof r);
-#endif
-            gstuff_autorecv_setbuf_v1(&r, buf_, cap_);
-        }
+        // gstuff_autorecv_setbuf_v1 is the one set-up call the legacy receiver has (it binds the buffer and resets line, crc
+        // and state); it is also how a receiver is re-initialised.
+        void reinit(int) override { gstuff_autorecv_setbuf_v1(&r, buf_, cap_); }
         LegacyReceiver(uint8_t *buf, int cap) : buf_(buf), cap_(cap)
         {
-            // gstuff_autorecv_init_v1 is declared but not defined anywhere; the documented use is a
-            // zero-initialised object followed by setbuf (setbuf does not touch `state`).
-            memset(&r, 0, sizeof r);
+            // the object lives in memory that is NOT zero-filled: whatever setbuf does not initialise stays 0x5A
+            memset(&r, 0x5A, sizeof r);
             gstuff_autorecv_setbuf_v1(&r, buf, cap);
         }
         Status feed(uint8_t c) override
